@@ -142,7 +142,39 @@ class QfixedImp(float, Qtype):
         return v[1][v[0].BIT_SIZE_FRACTIONAL :] + v[1][: v[0].BIT_SIZE_FRACTIONAL][::-1]
 
     @staticmethod
+    def _align(tleft: TExp, tright: TExp):
+        """Bring two Qfixed operands to the same layout: the operand whose integer and
+        fractional parts are both not longer is re-expressed in the layout of the other"""
+        for t in (tleft[0], tright[0]):
+            if not issubclass(t, QfixedImp):
+                raise TypeErrorException(t, QfixedImp)
+
+        def layout(t):
+            return (t.BIT_SIZE_INTEGER, t.BIT_SIZE_FRACTIONAL)
+
+        def widen(v, t):
+            ip = QfixedImp.integer_part(v)
+            fp = QfixedImp.fractional_part(v)
+            return (
+                t,
+                ip
+                + [False] * (t.BIT_SIZE_INTEGER - len(ip))
+                + fp
+                + [False] * (t.BIT_SIZE_FRACTIONAL - len(fp)),
+            )
+
+        (li, lf), (ri, rf) = layout(tleft[0]), layout(tright[0])
+        if (li, lf) == (ri, rf):
+            return tleft, tright
+        if li >= ri and lf >= rf:
+            return tleft, widen(tright, tleft[0])
+        if ri >= li and rf >= lf:
+            return widen(tleft, tright[0]), tright
+        raise TypeErrorException(tright[0], tleft[0])
+
+    @staticmethod
     def eq(tleft: TExp, tcomp: TExp) -> TExp:
+        tleft, tcomp = QfixedImp._align(tleft, tcomp)
         ex = true
         for x in zip(tleft[1], tcomp[1]):
             ex = And(ex, _eq(x[0], x[1]))
@@ -151,6 +183,7 @@ class QfixedImp(float, Qtype):
 
     @staticmethod
     def neq(tleft: TExp, tcomp: TExp) -> TExp:
+        tleft, tcomp = QfixedImp._align(tleft, tcomp)
         ex = false
         for x in zip(tleft[1], tcomp[1]):
             ex = Or(ex, _neq(x[0], x[1]))
@@ -164,6 +197,7 @@ class QfixedImp(float, Qtype):
         if not issubclass(tcomp[0], QfixedImp):
             raise TypeErrorException(tcomp[0], QfixedImp)
 
+        tleft, tcomp = QfixedImp._align(tleft, tcomp)
         tleft_e = cast(Qtype, tleft)
         tcomp_e = cast(Qtype, tcomp)
 
@@ -215,14 +249,9 @@ class QfixedImp(float, Qtype):
         if not issubclass(tleft[0], QfixedImp):
             raise TypeErrorException(tleft[0], QfixedImp)
 
+        tleft, tright = QfixedImp._align(tleft, tright)
         tright_e = cast(Qtype, tright)
         tleft_e = cast(Qtype, tleft)
-
-        if len(tleft_e[1]) > len(tright_e[1]):
-            tright_e = tleft_e[0].fill(tright_e)
-
-        elif len(tleft_e[1]) < len(tright_e[1]):
-            tleft_e = tright_e[0].fill(tleft_e)
 
         tl_v = QfixedImp._to_qint_repr(tleft_e)
         tr_v = QfixedImp._to_qint_repr(tright_e)
@@ -239,6 +268,7 @@ class QfixedImp(float, Qtype):
         if not issubclass(tright[0], Qtype):
             raise TypeErrorException(tright[0], Qtype)
 
+        tleft, tright = cls._align(tleft, tright)
         an = cls.bitwise_not(cls.fill(tleft))
         su = cls.add(an, cls.fill(tright))
         return cls.bitwise_not(su)
